@@ -69,3 +69,16 @@ func ReadAttrFile(filename string) []byte {
 	b, _ := os.ReadFile(fallbackFileName(filename))
 	return b
 }
+
+// RemoveAttr removes an attribute recorded by RecordAttr from the given file, whether it lives
+// in an xattr or in the fallback file. It's a no-op if nothing was recorded.
+func RemoveAttr(filename, xattrName string) {
+	os.Remove(fallbackFileName(filename))
+	if err := xattr.LRemove(filename, xattrName); err != nil && os.IsPermission(err.(*xattr.Error).Err) {
+		// As for RecordAttr, we need write permission to alter xattrs.
+		if info, err := os.Lstat(filename); err == nil && os.Chmod(filename, info.Mode()|0200) == nil {
+			xattr.LRemove(filename, xattrName)
+			os.Chmod(filename, info.Mode())
+		}
+	}
+}
